@@ -295,6 +295,29 @@ LOCAL_IMPORT_READERS = {"callee imported inside the function body": ["/c/li", "/
 CLASS_ATTR_READERS = {"class attribute read without a call": ["/c/clsattr", "/c/rt", "/c/dup"]}
 KNOWN_EDIT_CLASSES = {}
 
+MAIN_SCRIPT = '''
+import os
+import dds
+if os.environ.get("DDS_PLAIN") == "1":
+    dds.keep = lambda path, f, *a, **k: f(*a, **k)
+    dds.eval = lambda f, *a, **k: f(*a, **k)
+else:
+    dds.set_store("local", internal_dir="__STORE__/int", data_dir="__STORE__/data")
+K = 3
+CONF = {"a": 1}
+TUP = (1, 2)
+def helper():
+    return 10
+def leaf():
+    return helper() * K + CONF["a"] + TUP[1]
+def other(x, y=5):
+    return "%s-%s" % (x, y)
+def root():
+    return (dds.keep("/ms/leaf", leaf) + 1, dds.keep("/ms/other", other, 2))
+if __name__ == "__main__":
+    print("RESULT", dds.keep("/ms/root", root), dds.eval(root))
+'''
+
 RUNNER = r'''
 import sys, os, json
 base, mode = sys.argv[1], sys.argv[2]
@@ -378,6 +401,10 @@ if "extra_debug" in opts:
     dds.set_option("extra_debug", opts["extra_debug"])
 if opts.get("store") == "memory":
     dds.set_store("memory")
+elif opts.get("store") == "noop":
+    dds.set_store("noop")
+elif opts.get("store") == "local_cache":
+    dds.set_store("local", internal_dir=os.path.join(opts.get("store_dir", base), "_int"), data_dir=os.path.join(opts.get("store_dir", base), "_data"), cache_objects=3)
 else:
     dds.set_store("local", internal_dir=os.path.join(opts.get("store_dir", base), "_int"), data_dir=os.path.join(opts.get("store_dir", base), "_data"))
 for i in range(opts.get("warmup", 0)):
@@ -464,6 +491,40 @@ def main():
 
     tmp = tempfile.mkdtemp(prefix="dds_b_corpus_")
     try:
+        if mode == "c01":
+            # where the code lives: a __main__ script (functions and variables of the script itself), run as a program,
+            # edited between runs; every run prints what plain execution of the edited script prints
+            sd = os.path.join(tmp, "main_script")
+            os.makedirs(sd)
+            script = os.path.join(sd, "script.py")
+            open(script, "w").write(MAIN_SCRIPT.replace("__STORE__", sd))
+            for (old_, new_) in [(None, None), ("return 10", "return 20"), ("K = 3", "K = 4"), ('"a": 1', '"a": 5'), ("return 20", "return 10"), ("TUP = (1, 2)", "TUP = (1, 7)")]:
+                evals += 1
+                if old_ is not None:
+                    s_ = open(script).read()
+                    assert s_.count(old_) == 1, old_
+                    open(script, "w").write(s_.replace(old_, new_))
+                outs = {}
+                for plain in ("0", "1"):
+                    env = dict(os.environ, DDS_PLAIN=plain, PYTHONPATH=payload.get("repo", "/repo"))
+                    p_ = subprocess.run([sys.executable, script], capture_output=True, text=True, env=env, cwd=sd, timeout=120)
+                    outs[plain] = [l for l in p_.stdout.split("\n") if l.startswith("RESULT")] or ["<no result: %s>" % p_.stderr.strip().split("\n")[-1][:160]]
+                if outs["0"] != outs["1"]:
+                    note(None, "[__main__ script, after edit %r -> %r] dds prints %s, plain execution prints %s" % (old_, new_, outs["0"], outs["1"]))
+        if mode == "c01":
+            # every store kind: the value is that of plain execution, before and after an edit (in the same directories)
+            for kind in ("memory", "noop", "local_cache"):
+                d = os.path.join(tmp, "kind_%s" % kind)
+                materialise(d)
+                for (rel_, old_, new_) in [(None, None, None), ("corp/helpers.py", "return 10", "return 11"), ("corp/consts.py", "SCALE = 3", "SCALE = 4")]:
+                    evals += 1
+                    if rel_:
+                        edit(d, rel_, old_, new_)
+                    for rep in (0, 1):
+                        got, plain = run(d, "dds", opts={"store": kind}), run(d, "plain")
+                        if got.get("error") or got["value"] != plain["value"]:
+                            note(None, "[store kind %s, after edit %r, run %d] dds returns %s %s, plain execution gives %s" % (kind, new_, rep, str(got.get("value"))[:200], got.get("error") or "", plain["value"][:200]))
+                            break
         if mode in ("c01", "c02"):
             for (name, rel, old, new, cone) in EDITS:
                 d = os.path.join(tmp, "case_%d" % evals)
@@ -602,7 +663,7 @@ def main():
     finally:
         shutil.rmtree(tmp, ignore_errors=True)
     print(json.dumps({
-        "scope": {"c01": "%d single edits of a 9-keep pipeline (each dependency kind), value vs plain execution and signature sensitivity" % len(EDITS), "c02": "%d single edits + restart + revert: re-execution only inside the dependency cone" % len(EDITS), "c03": "9 environment variants + pinned signatures of the corpus"}[mode],
+        "scope": {"c01": "a __main__ script through 5 edits; the pipeline on the memory / noop / cache-wrapped local store through 2 edits; %d single edits of a 30-keep pipeline (each dependency kind), value vs plain execution and signature sensitivity" % len(EDITS), "c02": "%d single edits + restart + revert: re-execution only inside the dependency cone" % len(EDITS), "c03": "9 environment variants + pinned signatures of the corpus"}[mode],
         "evaluations": evals, "distinct_nontrivial": evals, "rule": "one case per edit (c01/c02) or per environment variant (c03), each in fresh interpreter processes",
         "samples": samples, "violations": violations,
         "known_hits": ["bounded:%s (%d cases, e.g. %s)" % (c, len(w), w[0][:170]) for c, w in sorted(known.items())],
